@@ -507,7 +507,7 @@ fn enc_out(a: &Abs, out: &Out) -> Vec<u64> {
 // ---------------------------------------------------------------- independent re-computation from truth
 /// What the property text demands, computed from the replayed truth log and the harness's own record of
 /// what it wrote for each run.  Returns None when the anchor is not a message of the thread.
-fn spec_bundle(a: &Abs, runs: &[RunRec], anchor: &str, limit: usize, max_refs: usize) -> Option<Value> {
+fn spec_bundle(a: &Abs, runs: &[RunRec], anchor: &str, limit: usize, max_refs: usize, frame_at_or_before_cut: bool) -> Option<Value> {
     let t = &a.truth;
     let is_msg = |e: &Event| matches!(e.kind, EventKind::ContinuityMessageAppended { .. });
     let apos = t.iter().position(|e| is_msg(e) && e.id == anchor)?;
@@ -517,7 +517,7 @@ fn spec_bundle(a: &Abs, runs: &[RunRec], anchor: &str, limit: usize, max_refs: u
     };
     // visible cumulative checkpoints: the frame itself and its to_seq at or before the cut; per to_seq the newest frame
     let mut by_to: BTreeMap<u64, (String, String)> = BTreeMap::new();
-    for e in t.iter().filter(|e| e.seq <= cut) {
+    for e in t.iter().filter(|e| e.seq <= cut || !frame_at_or_before_cut) {
         if let EventKind::ContinuityCompactionCheckpointCreated { summary_kind, summary_artifact_id, to_seq, checkpoint_id, .. } = &e.kind {
             if summary_kind == CUMULATIVE && *to_seq <= cut {
                 by_to.insert(*to_seq, (summary_artifact_id.clone(), checkpoint_id.clone()));
@@ -806,7 +806,7 @@ fn run_case(case: &Case, limit: usize, max_refs: usize) -> CaseOut {
                 others.push((format!("fault:{t:?}:{k:?}"), v.pop().unwrap()));
             }
         }
-        let spec = spec_bundle(&abs, &runs, &anchor_id, limit, max_refs);
+        let spec = spec_bundle(&abs, &runs, &anchor_id, limit, max_refs, true);
         let cut_is_head = spec.as_ref().map(|s| s["from_seq"].as_u64() == abs.truth.last().map(|e| e.seq)).unwrap_or(false);
         compiled.push(Compiled { anchor: an.clone(), anchor_id, baseline, others, spec, cut_is_head });
     }
@@ -860,30 +860,38 @@ fn judge(case: &Case, out: &CaseOut, limit: usize, max_refs: usize, checks: &mut
         *checks += 1;
         let got = view_of(&c.baseline);
         if got != c.spec {
-            let late = selected_checkpoint_after_cut(&out.abs, &c.baseline);
-            let class = if late { "checkpoint_after_cut_selected" } else { "bundle_differs_from_truth_recomputation" };
-            v.push((ai, class.to_string(), format!("anchor {:?}: implementation => {}   recomputed from truth => {}", c.anchor, short(&got.map(|x| x.to_string()).unwrap_or("error".into())), short(&c.spec.as_ref().map(|x| x.to_string()).unwrap_or("error".into())))));
+            let class = s9_class(&out.abs, &out.runs, &c.anchor_id, &c.baseline, limit, max_refs, "bundle_differs_from_truth_recomputation");
+            v.push((ai, class, format!("anchor {:?}: implementation => {}   recomputed from truth => {}", c.anchor, short(&got.map(|x| x.to_string()).unwrap_or("error".into())), short(&c.spec.as_ref().map(|x| x.to_string()).unwrap_or("error".into())))));
         }
         // (c) frames appended after the cut
         let lb = &out.later_baselines[ai];
         *checks += 1;
         if !c.cut_is_head {
             if lb.canon() != c.baseline.canon() {
-                let class = if selected_checkpoint_after_cut(&out.abs_later, lb) { "checkpoint_after_cut_selected" } else { "later_frames_change_bundle" };
-                v.push((ai, class.to_string(), format!("anchor {:?} (cut before the head): before => {}   after appending {:?} => {}", c.anchor, short(&c.baseline.canon()), case.later, short(&lb.canon()))));
+                let class = s9_class(&out.abs_later, &out.runs_later, &c.anchor_id, lb, limit, max_refs, "later_frames_change_bundle");
+                v.push((ai, class, format!("anchor {:?} (cut before the head): before => {}   after appending {:?} => {}", c.anchor, short(&c.baseline.canon()), case.later, short(&lb.canon()))));
             }
         } else {
             // the cut was the head: it moves with the head (or stops at the next message); the result must be the truth recomputation of the longer thread
-            let spec2 = spec_bundle(&out.abs_later, &out.runs_later, &c.anchor_id, limit, max_refs);
+            let spec2 = spec_bundle(&out.abs_later, &out.runs_later, &c.anchor_id, limit, max_refs, true);
             if view_of(lb) != spec2 {
-                let class = if selected_checkpoint_after_cut(&out.abs_later, lb) { "checkpoint_after_cut_selected" } else { "bundle_differs_from_truth_recomputation" };
-                v.push((ai, class.to_string(), format!("anchor {:?} after appending {:?}: implementation => {}   recomputed => {}", c.anchor, case.later, short(&view_of(lb).map(|x| x.to_string()).unwrap_or("error".into())), short(&spec2.map(|x| x.to_string()).unwrap_or("error".into())))));
+                let class = s9_class(&out.abs_later, &out.runs_later, &c.anchor_id, lb, limit, max_refs, "bundle_differs_from_truth_recomputation");
+                v.push((ai, class, format!("anchor {:?} after appending {:?}: implementation => {}   recomputed => {}", c.anchor, case.later, short(&view_of(lb).map(|x| x.to_string()).unwrap_or("error".into())), short(&spec2.map(|x| x.to_string()).unwrap_or("error".into())))));
             }
         }
     }
     v
 }
-/// executable class of S9: the decision names a checkpoint whose own frame lies after the cut
+/// S9 and nothing else: the decision names a checkpoint whose own frame lies after the cut AND the outcome is
+/// exactly the truth re-computation with the visibility rule `to_seq <= cut` (any further deviation keeps `other`)
+fn s9_class(a: &Abs, runs: &[RunRec], anchor: &str, out: &Out, limit: usize, max_refs: usize, other: &str) -> String {
+    if selected_checkpoint_after_cut(a, out) && view_of(out) == spec_bundle(a, runs, anchor, limit, max_refs, false) {
+        "checkpoint_after_cut_selected".to_string()
+    } else {
+        other.to_string()
+    }
+}
+/// the decision names a checkpoint whose own frame lies after the cut
 fn selected_checkpoint_after_cut(a: &Abs, out: &Out) -> bool {
     let Out::Ok { decision, from_seq, .. } = out else { return false };
     decision["compaction_checkpoints"].as_array().map(|v| v.iter().any(|c| a.seq_of_ckpt.get(c["checkpoint_id"].as_str().unwrap_or("")).map(|s| s > from_seq).unwrap_or(false))).unwrap_or(false)
